@@ -72,6 +72,22 @@ func (c *Ctx) ruleM3(ruleShape, ruleSucc string) {
 					if b, ok := constBool(pv.V); ok {
 						if b {
 							possiblyTrue = true
+							// `if returned { return v, nil, true }`: under the true edge of a test of a
+							// child's flag the constant is that flag
+							under := false
+							for _, g := range x.GuardsOf(r.Block()) {
+								if !g.Pol {
+									continue
+								}
+								if ex, isEx := x.Origin(g.Cond).(*ssa.Extract); isEx && ex.Index == 2 {
+									if call, isCall := ex.Tuple.(*ssa.Call); isCall && isEv[call.Call.StaticCallee()] {
+										under, passCall = true, call
+									}
+								}
+							}
+							if under {
+								continue
+							}
 							if !mayTrue[fnName(f)] {
 								shapeOK, why = false, "constant true flag outside return/break/continue"
 							}
